@@ -41,6 +41,8 @@ type splitCase struct {
 	// long after the split listener started routing (a consumer that starts late, or backs off); a
 	// routed connection has to wait for them
 	LateConsumerMs int `json:"consumers_start_accepting_after_ms,omitempty"`
+	// RegisterAfterStart: Start is already running when the sub-listeners are registered
+	RegisterAfterStart bool `json:"sub_listeners_registered_after_start,omitempty"`
 	// CloseLookedUp: a second handle for this registered name is obtained (other native setting) and closed
 	// before routing starts
 	CloseLookedUp string `json:"second_handle_closed_for,omitempty"`
@@ -218,6 +220,14 @@ func runSplitCase(c *engine.Ctx, s *world.Server, node *world.Node, sc splitCase
 	var held []net.Conn
 	closedReports := map[string]error{}
 	var subWG sync.WaitGroup
+	startDone := make(chan error, 1)
+	if sc.RegisterAfterStart {
+		// the application starts routing first and registers its sub-listeners while Start is already running
+		// (GetListener allows that until the base listener is closed)
+		go func() { startDone <- sl.Start() }()
+		time.Sleep(150 * time.Millisecond)
+		r.Count("topologies_registered_after_start", 1)
+	}
 	for _, name := range names {
 		ln, err := sl.GetListener(name, nodeenrollment.WithNativeConns(sc.Native))
 		if err != nil {
@@ -283,8 +293,9 @@ func runSplitCase(c *engine.Ctx, s *world.Server, node *world.Node, sc splitCase
 			r.Count("topologies_with_a_closed_second_handle", 1)
 		}
 	}
-	startDone := make(chan error, 1)
-	go func() { startDone <- sl.Start() }()
+	if !sc.RegisterAfterStart {
+		go func() { startDone <- sl.Start() }()
+	}
 
 	roots, _ := s.Roots()
 	_ = roots
@@ -604,6 +615,15 @@ func runSplit(c *engine.Ctx) engine.Result {
 			splitCase{Topology: []string{nodenet.AuthenticatedNonSpecificNextProto}, LateConsumerMs: 3000, OwnSentinel: true})
 	}
 	cases = append(cases, late...)
+	// sub-listeners registered while Start is already running
+	for i, topo := range [][]string{
+		{"A", nodenet.AuthenticatedNonSpecificNextProto, nodenet.UnauthenticatedNextProto},
+		{nodenet.AuthenticatedNonSpecificNextProto},
+		{nodenet.UnauthenticatedNextProto, "B"},
+		{"A", "B", "C"},
+	} {
+		cases = append(cases, splitCase{Topology: topo, Native: i%2 == 1, RegisterAfterStart: true, Order: i})
+	}
 	for _, n := range []string{"A", nodenet.AuthenticatedNonSpecificNextProto, nodenet.UnauthenticatedNextProto} {
 		for _, native := range []bool{false, true} {
 			cases = append(cases, splitCase{Topology: []string{"A", "B", nodenet.AuthenticatedNonSpecificNextProto, nodenet.UnauthenticatedNextProto}, Native: native, CloseLookedUp: n})
@@ -623,6 +643,7 @@ func runSplit(c *engine.Ctx) engine.Result {
 	r.Require("sublisteners_reported_closed", 10)
 	r.Require("base_listener_closed_with_own_sentinel", 10)
 	r.Require("topologies_with_late_consumers", 1)
+	r.Require("topologies_registered_after_start", 4)
 	r.Require("topologies_with_repeated_lookups", 10)
 	r.Require("topologies_with_extra_protocols_in_listener_options", 10)
 	r.Require("topologies_with_a_closed_second_handle", 6)
